@@ -4,39 +4,6 @@ namespace vs
 {
 constexpr int N_TYPED_SITES = 55;
 
-inline std::string typed_sanitize(std::string const& s)
-{
-  // BackendOptions' default check_printable_char: ' '..'~' and '\n' are printable, the rest becomes \xHH
-  bool any = false;
-  for (char c : s)
-  {
-    if (!((c >= ' ' && c <= '~') || c == '\n'))
-    {
-      any = true;
-    }
-  }
-  if (!any)
-  {
-    return s;
-  }
-  static char const hex[] = "0123456789ABCDEF";
-  std::string o;
-  for (char c : s)
-  {
-    if ((c >= ' ' && c <= '~') || c == '\n')
-    {
-      o.push_back(c);
-    }
-    else
-    {
-      o += "\\x";
-      o.push_back(hex[(c >> 4) & 0xF]);
-      o.push_back(hex[c & 0xF]);
-    }
-  }
-  return o;
-}
-
 inline std::string typed_str(Rng& r, size_t maxlen, int flavour)
 {
   // flavour 0 printable, 1 may be empty, 2 embedded NUL, 3 non-printable bytes
@@ -322,7 +289,7 @@ void VM<FO>::do_log_typed(int tid, int opi, Op const& op)
     std::memset(b, 0, sizeof(b));
     std::memcpy(b, sb.data(), sb.size());
     c11ok = true;
-    expected = fmtquill::format("#{}# {}|{}", id, sa, sb);
+    expected = typed_sanitize(fmtquill::format("#{}# {}|{}", id, sa, sb));
     begin_invoke();
     sim::AllocCounters const before = sim::alloc_counters();
     QUILL_LOG_INFO(lg, "#{}# {}|{}", id, a, b);
